@@ -17,6 +17,7 @@ EXPLANATION = (
     "members."
     "Also decided: _get_attribute returns only the looked-up member and no gate can fall off its end; the class-expose loop tests the member's own name for privacy; _reset_exposed_members addresses the cache entry _get_exposed_members wrote; every loadsCall hands object id and member name on exactly as decoded. "
     "Also decided (round 7): The property gates run the examined descriptor's own accessor (no getattr/setattr on the object); resetMetadataCache hands the unwrapped object to the cache reset. "
+    "Also decided (round 9): The metadata cache rules also recognise member sets obtained from the cache entry (`x = entry['methods']`). "
     "Not decided: getattr/descriptor behaviour for arbitrary class shapes, unicode look-alikes, non-string names."
 )
 
@@ -294,6 +295,9 @@ def run(ctx, R, tier):
             for k, v in zip(n.keys, n.values):
                 if isinstance(k, ast.Constant) and k.value in ("methods", "attrs") and isinstance(v, ast.Name):
                     role[v.id] = k.value
+        elif isinstance(n, ast.Assign) and len(n.targets) == 1 and isinstance(n.targets[0], ast.Name) and isinstance(n.value, ast.Subscript) \
+                and isinstance(n.value.slice, ast.Constant) and n.value.slice.value in ("methods", "attrs"):
+            role[n.targets[0].id] = n.value.slice.value          # methods = entry["methods"]: the local names a set that already sits in the result dict
     for c, _ in ctx.cg.calls_of(m):
         if isinstance(c.func, ast.Attribute) and c.func.attr == "add" and isinstance(c.func.value, ast.Name) and c.func.value.id in role:
             adds.setdefault(role[c.func.value.id], []).append(c)
